@@ -160,6 +160,7 @@ class TSPEnv(RL4COEnvBase):
     @staticmethod
     def check_solution_validity(td: TensorDict, actions: torch.Tensor) -> None:
         """Check that solution is valid: nodes are visited exactly once"""
+        assert actions.size(1) == td["locs"].size(-2), "Invalid tour: wrong number of nodes"
         assert (
             torch.arange(actions.size(1), out=actions.data.new())
             .view(1, -1)
